@@ -74,6 +74,7 @@ type Interp struct {
 	known      []KnownRegion
 	splits     []*Term
 	feasSolver *Solver
+	inTask     bool
 	permuteMaps  bool
 	permuteSites []string
 	sinceVar   *Term
@@ -133,6 +134,8 @@ type task struct {
 	fv   *FuncVal
 	args []Value
 	site string
+	seq  int
+	done bool
 }
 
 func NewInterp(prog *ssa.Program, solver *Solver) *Interp {
